@@ -10,7 +10,7 @@ from sa.model import AnalysisError, FuncInfo, Program, dotted, norm, walk_local
 from sa.report import Context
 from sa.rules import common
 from sa.rules.common import FSH, PM
-from sa.util import forward_taint, func_key, returns_of, site_for, where
+from sa.util import forward_taint, func_key, guards_of, returns_of, site_for, where
 
 EXPLANATION = (
     "Decides, from /repo's current source: R07a every call into plugin code (8 callback sites, the plugin import and "
@@ -628,6 +628,192 @@ def r07k(ctx: Context) -> None:
         raise AnalysisError(f"only {checked} reporting call(s) found in the plugin base class (2 confirmed)")
 
 
+POSITIONLESS_FACTS = ("is_end_token", "is_end_of_stream", "is_pragma")
+
+
+def r07l(ctx: Context) -> None:
+    """'Every reported failure names a line that exists in the file and a column within that line.'  A report made
+    at a token takes the token's own line and column.  The end-of-stream token - handed to every rule as the last
+    token of every document - has no line of its own (it sits one line past the end, column 0).  A report at the
+    token just received, without a position override, is therefore in range only where the path has established
+    what kind of token it is (a positive ``is_<kind>`` fact, possibly through a local that is only set under one)
+    or has excluded the end of the stream."""
+    prog = ctx.prog
+    rule = ctx.rule("R07l", "a rule reports at the token it was handed only where that token is known to have a line of its own", 25)
+    base = prog.cls(common.RULE_PLUGIN)
+    generic = {"MarkdownToken"}
+
+    def positioned_kind(fact: str) -> bool:
+        return fact not in POSITIONLESS_FACTS and not fact.endswith("_end")
+
+    def kind_of(part: ast.AST, name: str) -> Optional[str]:
+        """'<name>.is_<kind>' -> 'is_<kind>'"""
+        if isinstance(part, ast.Attribute) and isinstance(part.value, ast.Name) and part.value.id == name and part.attr.startswith("is_"):
+            return part.attr
+        return None
+
+    def alternative_kind(part: ast.AST, name: str) -> Optional[str]:
+        """the kind that one alternative of an 'or' establishes: the fact itself, or a conjunct of it"""
+        if isinstance(part, ast.BoolOp) and isinstance(part.op, ast.And):
+            return next((k for k in (kind_of(value, name) for value in part.values) if k is not None and positioned_kind(k)), None)
+        return kind_of(part, name)
+
+    def class_facts(func: FuncInfo, node: ast.AST, name: str) -> Tuple[List[str], List[str], List[ast.AST]]:
+        """(kinds the token is known to be one of - only when every alternative is a kind -, kinds it is known
+        not to be, the other facts that hold)"""
+        positive: List[str] = []
+        negative: List[str] = []
+        other: List[ast.AST] = []
+        work = list(guards_of(func.node, node, include_asserts=True))
+        while work:
+            part, pol = work.pop()
+            if isinstance(part, ast.NamedExpr):
+                if pol:
+                    other.append(part.target)
+                work.append((part.value, pol))
+                continue
+            if isinstance(part, ast.UnaryOp) and isinstance(part.op, ast.Not):
+                work.append((part.operand, not pol))
+                continue
+            if isinstance(part, ast.BoolOp):
+                conjunctive = (isinstance(part.op, ast.And) and pol) or (isinstance(part.op, ast.Or) and not pol)
+                if conjunctive:
+                    work.extend((value, pol) for value in part.values)
+                    continue
+                if pol:
+                    # a or b: the token is one of these kinds only if every alternative names a kind with a line
+                    kinds = [alternative_kind(value, name) for value in part.values]
+                    if all(kind is not None and positioned_kind(kind) for kind in kinds):
+                        positive.append(" or ".join(k for k in kinds if k))
+                        continue
+                continue
+            kind = kind_of(part, name)
+            if kind is not None:
+                (positive if pol else negative).append(kind)
+            elif pol:
+                other.append(part)
+        return positive, negative, other
+
+    def has_kind(func: FuncInfo, node: ast.AST, name: str) -> Optional[str]:
+        positive, _negative, _other = class_facts(func, node, name)
+        for fact in positive:
+            if " or " in fact or positioned_kind(fact):
+                return fact
+        return None
+
+    def set_under_kind(func: FuncInfo, local: str, name: str, depth: int = 0) -> bool:
+        """every binding that can make ``local`` truthy is made for a known kind of token ``name``"""
+        found = False
+        for node in walk_local(func.node):
+            if isinstance(node, ast.NamedExpr) and isinstance(node.target, ast.Name) and node.target.id == local:
+                kinds = [kind_of(value, name) for value in (node.value.values if isinstance(node.value, ast.BoolOp) and isinstance(node.value.op, ast.Or) else [node.value])]
+                if not all(kind is not None and positioned_kind(kind) for kind in kinds):
+                    return False
+                found = True
+                continue
+            targets = node.targets if isinstance(node, ast.Assign) else [node.target] if isinstance(node, (ast.AnnAssign, ast.AugAssign)) else []
+            index: Optional[int] = None
+            hit = False
+            for target in targets:
+                if isinstance(target, ast.Name) and target.id == local:
+                    hit = True
+                elif isinstance(target, ast.Tuple):
+                    for position, element in enumerate(target.elts):
+                        if isinstance(element, ast.Name) and element.id == local:
+                            hit, index = True, position
+            if not hit:
+                continue
+            value = getattr(node, "value", None)
+            if isinstance(value, ast.Tuple) and index is not None and index < len(value.elts):
+                value, index = value.elts[index], None
+            if isinstance(value, ast.Constant) and not value.value:
+                continue
+            if has_kind(func, node, name):
+                found = True
+                continue
+            _positive, _negative, other = class_facts(func, node, name)
+            if any(isinstance(sub, ast.Name) and sub.id == local for test in other for sub in ast.walk(test)):
+                continue  # refined where it already holds a value
+            if isinstance(value, ast.Call) and depth < 2:
+                site = site_for(prog, func, value)
+                if site is not None and len(site.targets) == 1 and site.targets[0].cls == func.cls:
+                    helper = site.targets[0]
+                    bound = Program.bind_args(helper, value, skip_self=helper.kind in ("instance", "class"))
+                    handed = [param for param, arg in bound.items() if isinstance(arg, ast.Name) and arg.id == name]
+                    if handed:
+                        good = True
+                        for ret in returns_of(helper):
+                            element = ret.elts[index] if isinstance(ret, ast.Tuple) and index is not None and index < len(ret.elts) else ret
+                            if isinstance(element, ast.Constant) and not element.value:
+                                continue
+                            if isinstance(element, ast.Name) and set_under_kind(helper, element.id, handed[0], depth + 1):
+                                continue
+                            good = False
+                        if good:
+                            found = True
+                            continue
+            return False
+        return found
+
+    def established(func: FuncInfo, node: ast.AST, name: str, depth: int = 0) -> Optional[str]:
+        """why the token called ``name`` has a line of its own at ``node`` (None: not established)"""
+        annotation = next((a.annotation for a in func.node.args.args if a.arg == name), None)  # type: ignore[attr-defined]
+        if annotation is not None and norm(annotation).strip("'\"") not in generic and "Optional" not in norm(annotation):
+            return f"typed {norm(annotation)}"
+        positive, negative, other = class_facts(func, node, name)
+        kind = has_kind(func, node, name)
+        if kind:
+            return f"under {kind}"
+        if "is_end_of_stream" in negative:
+            return "end of stream excluded"
+        for test in other:
+            for sub in ast.walk(test):
+                if isinstance(sub, ast.Name) and sub.id != name and sub.id not in func.params and set_under_kind(func, sub.id, name):
+                    return f"under '{sub.id}', which is only set for a known kind of token"
+        if func.name != "next_token" and depth < 3:
+            callers = [s for s in prog.callers.get(func.qualname, []) if s.caller.cls is not None and func.cls in s.caller.cls.mro or s.caller.cls == func.cls]
+            reasons = []
+            for site in callers:
+                bound = Program.bind_args(func, site.node, skip_self=func.kind == "instance")
+                handed = bound.get(name)
+                if isinstance(handed, ast.Name) and handed.id in site.caller.params:
+                    reason = established(site.caller, site.node, handed.id, depth + 1)
+                else:
+                    reason = "a stored or derived token (not the one just received)"
+                if reason is None:
+                    return None
+                reasons.append(reason)
+            if reasons:
+                return reasons[0]
+        return None
+
+    reporter = prog.method(common.RULE_PLUGIN, "report_next_token_error")
+    offsets = [a.arg for a in reporter.node.args.args if a.annotation is not None and norm(a.annotation) == "int"]  # type: ignore[attr-defined]
+    if len(offsets) != 2:
+        raise AnalysisError("report_next_token_error: the line / column offsets were not found among the parameters")
+    for cls in sorted(base.all_subclasses(), key=lambda c: c.qualname):
+        if not cls.module.rel.startswith("pymarkdown/plugins/"):
+            continue
+        for method in cls.methods.values():
+            for node in walk_local(method.node):
+                if not (isinstance(node, ast.Call) and isinstance(node.func, ast.Attribute) and node.func.attr == "report_next_token_error" and len(node.args) >= 2):
+                    continue
+                key = func_key(method, node) + " [token has a line]"
+                bound = Program.bind_args(reporter, node, skip_self=True)
+                if any(param in bound for param in offsets):
+                    rule.ok(key, "position computed by the rule")
+                    continue
+                token = node.args[1]
+                if not (isinstance(token, ast.Name) and token.id in method.params):
+                    rule.ok(key, "a stored or derived token (not decided here)")
+                    continue
+                reason = established(method, node, token.id)
+                if reason:
+                    rule.ok(key, reason)
+                else:
+                    rule.fail(key, where(method, node), f"{method.short} reports at '{token.id}' on a path that has not established what kind of token it is and has not excluded the end of the stream: for a document in which this path is reached by the end-of-stream token (an empty or blank-only file, ...) the failure is printed at the line after the last line, column 0 - a position that does not exist")
+
+
 def run(ctx: Context) -> None:
     common.callbacks_contained(ctx, "R07a")
     common.callbacks_only_from_manager(ctx, "R07b")
@@ -637,6 +823,7 @@ def run(ctx: Context) -> None:
     r07g(ctx)
     r07i(ctx)
     r07k(ctx)
+    r07l(ctx)
     common.optional_dereferences(
         ctx, "R07j", "no parameter or local of a rule or of the plugin manager that may be None is dereferenced unguarded on any path",
         lambda rel: rel.startswith(("pymarkdown/plugins/", "pymarkdown/plugin_manager/")), 100,
